@@ -372,7 +372,7 @@ def generate(tier):
     # 7. unions ------------------------------------------------------------------------------------------------
     for sh, sk in ((UN, 'un3'), (U1, 'un1')):
         for t in ('Debug', 'PartialEq', 'Hash'):
-            for m in ([t] + (['Debug(name = A)', 'Debug = A', 'Debug(name = false)'] if t == 'Debug' else [])):
+            for m in ([t, '%s()' % t, '%s[]' % t, '%s{}' % t, '%s(,)' % t] + (['Debug(name = A)', 'Debug = A', 'Debug(name = false)', 'Debug(name = A,)'] if t == 'Debug' else [])):
                 bad('union', '%s|no-unsafe|%s' % (sk, m), K.render(sh, K.Config('', [m])), K.render(sh, K.Config('', ['%s(unsafe)' % t])))
         for m in ('Debug(name = A, unsafe)', 'Debug(name = false, unsafe)'):
             bad('union', '%s|unsafe-not-first|%s' % (sk, m), K.render(sh, K.Config('', [m])), K.render(sh, K.Config('', ['Debug(unsafe, name = A)'])))
